@@ -72,6 +72,11 @@ numpy.{}
 # --- Wrappers for `Tensor` --- #
 
 
+def _as_out_tuple(out):
+    """Return ``out`` as 1-tuple, also accepting NumPy's form ``(out,)``."""
+    return out if isinstance(out, tuple) else (out,)
+
+
 def wrap_ufunc_base(name, n_in, n_out, doc):
     """Return ufunc wrapper for implementation-agnostic ufunc classes."""
     ufunc = getattr(np, name)
@@ -99,7 +104,8 @@ def wrap_ufunc_base(name, n_in, n_out, doc):
         if n_out == 1:
             def wrapper(self, x2, out=None, **kwargs):
                 return self.elem.__array_ufunc__(
-                    ufunc, '__call__', self.elem, x2, out=(out,), **kwargs)
+                    ufunc, '__call__', self.elem, x2, out=_as_out_tuple(out),
+                    **kwargs)
 
         else:
             raise NotImplementedError
@@ -134,7 +140,8 @@ class TensorSpaceUfuncs(object):
         """
         return self.elem.__array_ufunc__(
             np.add, 'reduce', self.elem,
-            axis=axis, dtype=dtype, out=(out,), keepdims=keepdims)
+            axis=axis, dtype=dtype, out=_as_out_tuple(out),
+            keepdims=keepdims)
 
     def prod(self, axis=None, dtype=None, out=None, keepdims=False):
         """Return the product of ``self``.
@@ -146,7 +153,8 @@ class TensorSpaceUfuncs(object):
         """
         return self.elem.__array_ufunc__(
             np.multiply, 'reduce', self.elem,
-            axis=axis, dtype=dtype, out=(out,), keepdims=keepdims)
+            axis=axis, dtype=dtype, out=_as_out_tuple(out),
+            keepdims=keepdims)
 
     def min(self, axis=None, dtype=None, out=None, keepdims=False):
         """Return the minimum of ``self``.
@@ -158,7 +166,8 @@ class TensorSpaceUfuncs(object):
         """
         return self.elem.__array_ufunc__(
             np.minimum, 'reduce', self.elem,
-            axis=axis, dtype=dtype, out=(out,), keepdims=keepdims)
+            axis=axis, dtype=dtype, out=_as_out_tuple(out),
+            keepdims=keepdims)
 
     def max(self, axis=None, dtype=None, out=None, keepdims=False):
         """Return the maximum of ``self``.
@@ -170,7 +179,8 @@ class TensorSpaceUfuncs(object):
         """
         return self.elem.__array_ufunc__(
             np.maximum, 'reduce', self.elem,
-            axis=axis, dtype=dtype, out=(out,), keepdims=keepdims)
+            axis=axis, dtype=dtype, out=_as_out_tuple(out),
+            keepdims=keepdims)
 
 
 # Add ufunc methods to ufunc class
